@@ -625,18 +625,15 @@ theorem C06_quiescent_all_delivered_unbounded (c : TcpCfg) (n : NetSt) (h : TcpS
     C06_quiescent_all_delivered c n h hD ls (TS.okRun_of_noDrop c ls hnd _) hc hqs
   exact ⟨sb, h2, h6, h7⟩
 
-/-- the ctl-free form of the side condition suffices: every drop leaves at least one other
-    packet of the connection in the network -/
-theorem C06_okRun_of_strong (c : TcpCfg) (ls : List TLbl) :
-    ∀ s : TS, (∀ k, k < ls.length → (TS.run c s (ls.take k)).dropOkStrong (ls.getD k (.run 0))) → TS.okRun c s ls := by
-  induction ls with
-  | nil => intro s _; trivial
-  | cons l rest ih =>
-    intro s hs
-    refine ⟨TS.dropOk_of_strong s l (by simpa [TS.run] using hs 0 (by simp)), ih _ ?_⟩
-    intro k hk
-    have := hs (k + 1) (by simp; omega)
-    simpa [TS.run] using this
+/-- the ctl-free form of the side condition suffices: every drop that takes effect leaves at
+    least one other packet of the connection in the network (`TS.okRunStrong`) -/
+theorem C06_no_orphan_resend_strong (c : TcpCfg) (n : NetSt) (h : TcpStartQ c n) (hD : c.tp.releaseOnDrop = true)
+    (ls : List TLbl) (hok : TS.okRunStrong c (TS.init c n) ls) :
+    let s := TS.run c (TS.init c n) ls
+    s.closed = false → s.Quiescent → ∃ sa, s.net.tcp? c.a = some sa ∧ sa.resend = [] := by
+  intro s hc hqs
+  obtain ⟨sa, h1, _, h3⟩ := C06_no_orphan_resend c n h hD ls (TS.okRun_of_okRunStrong c ls _ hok) hc
+  exact ⟨sa, h1, h3 hqs⟩
 
 /-! ### witnesses (MSS 3, window 6: the state `TcpEx.n0`) -/
 
@@ -783,6 +780,17 @@ example : QEx.qview TcpEx.c QEx.histReader
      of "one direction at a time, no foreign traffic". Deriving `TS.okRun` inside Lean needs the
      composition of `TS` with the route's queues (SimVerif/QueueSys.lean) in place of the free
      bag; that composition is not done.
+
+     NOTE (checked on the real library and on the Lean world model, scenario
+     corpus/_defects/c06_sole_segment_dropped.scn): the side condition is really about the
+     CONNECTION's packets, not about queue capacities alone. Two connections from the same node
+     sharing one finite outgoing queue (capacity 1600 ≥ one full segment), each writing ONE
+     1475-byte segment 28 µs apart: the second connection's only segment is tail-dropped by the
+     queue holding the first connection's segment; both writes report 1475 bytes accepted, the
+     second reader never gets them, `run()` returns — the library has no retransmission timer.
+     That history violates `TS.okRun` (nothing else of the second connection is in the network),
+     exactly like `C06_dropOk_necessary`; the property's wording excludes it only if "payload
+     one direction at a time on the connection" is read as "no other traffic in the queues".
 
   3. Both sockets open: after the writer's `close()` the model discards what waits for
      retransmission and ignores later hand-backs (the channel is gone), so bytes accepted
